@@ -93,4 +93,10 @@ CHECKS["C13"] = dict(
     note="Trusts: Sat as written in Trace_Types (union: some arm, intersection: all arms, Exactly: identical, StrictSubclass: proper subclass, HasMethod: attribute present). Deferred classes are exercised separately only through the test-suite (needs an un-imported module).",
     ref="5 C13")
 
+CHECKS["C14"] = dict(
+    technique="Doc subtype relation on passed type objects (Types.tla SubElem) checked by TLC as premise, then the documented resolution rule (Trace_Resolve C14Clause = C01 + C02 clauses) on recordings of real calls that pass classes, parametrised and nested generics and typing.Any",
+    text="The objects passed as arguments are element terms; TLC verifies that the annotation poset handed to the resolution rule is exactly SubElem (class: subclass; generic: same-or-super origin and argument-wise; Any = object; bare type = type[object]) and then judges which type[...] method ran, with an ordinary class-dispatched argument in the other position and the type-valued argument in first or second position.",
+    note="Trusts: realisation of element terms as Python objects. The resolution rule itself is model-checked in MC_Resolve (C02).",
+    ref="5 C14")
+
 PENDING_REASON = "check not built yet in this round (planned, see DESIGN section 10)"
